@@ -1668,7 +1668,7 @@ func runC26(c *C) {
 	intsStream(c)
 	finding10(c, rs)
 	depthStreams(c, rs)
-	n := c.N(16, 1200)
+	n := c.N(13, 1200)
 	limits := []int{0, 0, 0, 1, 2, 3, 4}
 	for _, r := range rs {
 		md := r.MT.Descriptor()
